@@ -936,6 +936,11 @@ func c18GenReal(t *rapid.T, thorough bool) *c18RealPlan {
 		m := &c18MirrorPlan{}
 		mt := int64(rapid.SampledFrom([]int{1, 200, 255, 256, 257, 511, 512, 513, 700, 1300}).Draw(t, "mirrorTarget"))
 		m.Rounds = c18GenRounds(t, "mround", mt, 20)
+		// a configuration with a log and a mirror exercises what only the tool's own main() does (which size goes with
+		// which directory): mostly run as the built binary
+		if rapid.IntRange(0, 3).Draw(t, "mirrorBinary") > 0 {
+			p.Binary = true
+		}
 		if rapid.Bool().Draw(t, "mirrorAhead") {
 			m.Ahead = []int{rapid.IntRange(1, 600).Draw(t, "mirrorAheadN")}
 			m.Keep = rapid.IntRange(1, 4).Draw(t, "mkeep")
